@@ -810,3 +810,55 @@ def fix5(run):
             work.extend(f.succs(x))
         run.check(not skipped, R, R + "|every-index-evaluated", f.loc(ct["span"]), "every visited candidate is evaluated (no path around resolve_instruction_match)",
                   "an iteration of the candidate loop can skip resolve_instruction_match")
+
+
+def first_pass_verdict(run, R="GATE"):
+    """the static-value shortcut answers `Resolved` in the first pass without the comparison with the previous value; when the
+    switch is off, the same item goes through that comparison and can answer `Unresolved` in that pass.  With a budget so
+    small that the first pass is also the last, the verdict of the whole run then depends on the switch."""
+    from rules_sym import deep
+    prog = run.prog
+    n = 0
+    for f in prog.real_fns():
+        if not f.id.startswith("asm::resolver::"):
+            continue
+        for b in sorted(f.reachable()):
+            tt = f.blocks[b]["term"]
+            if tt["k"] != "switch" or op_local(tt["discr"]) is None:
+                continue
+            if not deep(f, tt["discr"], 4).endswith(".optimize_statically_known"):
+                continue
+            ft = [tg for v, tg in tt["targets"] if v == "0"]
+            if not ft:
+                continue
+            treg = T.dominated_region(f, tt["otherwise"], b)
+            short = any(st["k"] == "assign" and st["place"]["p"] and isinstance(st["place"]["p"][-1], dict) and st["place"]["p"][-1].get("name") == "resolved" and const_int(st["rv"].get("op", {})) == 1
+                        for x in treg for st in f.blocks[x]["stmts"] if st["k"] == "assign" and st["rv"]["k"] == "use")
+            if not short:
+                continue
+            # is an `Unresolved` answer reachable when the switch is off?
+            seen = set()
+            work = [ft[0]]
+            unres = False
+            while work:
+                x = work.pop()
+                if x in seen:
+                    continue
+                seen.add(x)
+                for st in f.blocks[x]["stmts"]:
+                    if st["k"] == "assign" and st["place"]["l"] == 0 and st["rv"]["k"] == "agg" and st["rv"].get("variant") == "Ok" and st["rv"]["ops"] and deep(f, st["rv"]["ops"][0], 2) == "Unresolved{}":
+                        unres = True
+                work.extend(s_ for s_ in f.succs(x) if not f.blocks[s_]["cleanup"])
+            # only when the first pass is concerned (the shortcut is tied to is_first_iteration) can a run-level verdict differ
+            first = edge_true_dominates(f, lambda d: d.split(" var:")[0].endswith(".is_first_iteration"), [x for x in treg][0]) or any(
+                deep(f, f.blocks[x]["term"]["discr"], 4).endswith(".is_first_iteration") for x in treg if f.blocks[x]["term"]["k"] == "switch" and op_local(f.blocks[x]["term"]["discr"]) is not None)
+            if not first:
+                continue
+            n += 1
+            ex = run.table("fix").get("first_pass_verdict_exempt", {})
+            if unres and f.id in ex:
+                run.exception(R, "%s|first-pass-verdict|%s" % (R, f.id), f.loc(tt.get("span")), "%s: %s" % (f.id, ex[f.id]))
+                continue
+            run.check(not unres, R, "%s|first-pass-verdict|%s" % (R, f.id), f.loc(tt.get("span")), "%s: the shortcut does not change the verdict of a pass" % f.id,
+                      "%s answers `Resolved` in the first pass through the static-value shortcut, while with --debug-no-optimize-static the same item is compared with its placeholder and answers `Unresolved` in that pass: when the first pass is also the last (`-t 1`), the run succeeds with the switch on and fails to converge with it off" % f.id)
+    run.count("first_pass_shortcuts", n)
